@@ -45,8 +45,8 @@ pub open spec fn sum_len(s: Seq<Action>) -> int
 {
     if s.len() == 0 { 0 } else { sum_len(s.drop_last()) + act_len(s.last()) }
 }
-pub proof fn lemma_sum_push(s: Seq<Action>, a: Action)
-    ensures sum_len(s.push(a)) == sum_len(s) + act_len(a)
+pub broadcast proof fn lemma_sum_push(s: Seq<Action>, a: Action)
+    ensures #[trigger] sum_len(s.push(a)) == sum_len(s) + act_len(a)
 {
     assert(s.push(a).drop_last() =~= s);
 }
@@ -73,8 +73,8 @@ pub open spec fn flatten(q: Seq<SizedBundle>) -> Seq<Action>
 {
     if q.len() == 0 { Seq::empty() } else { flatten(q.drop_last()) + q.last().buffer@ }
 }
-pub proof fn lemma_flatten_push(q: Seq<SizedBundle>, b: SizedBundle)
-    ensures flatten(q.push(b)) =~= flatten(q) + b.buffer@
+pub broadcast proof fn lemma_flatten_push(q: Seq<SizedBundle>, b: SizedBundle)
+    ensures #[trigger] flatten(q.push(b)) =~= flatten(q) + b.buffer@
 {
     assert(q.push(b).drop_last() =~= q);
 }
@@ -131,8 +131,7 @@ ITEMS = [
             .and_modify(|count| *count = count.saturating_add(1))
             .or_insert(1);""",
                         new="vx_bump_rollup_count(&mut self.rollup_counts, &seq_action.rollup_id);")],
-         ghost=[("before", "self.buffer.push(Action::RollupDataSubmission(seq_action));",
-                 "proof { lemma_sum_push(self.buffer@, Action::RollupDataSubmission(seq_action)); lemma_sum_nonneg(self.buffer@); }")],
+         ghost=[("start", None, "broadcast use lemma_sum_push; proof { lemma_sum_nonneg(self.buffer@); }")],
          spec="""
     requires old(self).wf(),
     ensures
@@ -165,8 +164,7 @@ ITEMS = [
         ret.finished_queue_capacity == finished_queue_capacity, ret.curr_bundle.max_size == max_bytes_per_bundle,
 """),
     dict(file=F, path="impl BundleFactory/fn try_push",
-         ghost=[("before", "self.finished.push_back(self.curr_bundle.flush());",
-                 "proof { lemma_flatten_push(self.finished@, self.curr_bundle); }")],
+         ghost=[("start", None, "broadcast use lemma_flatten_push; proof { lemma_flatten_push(self.finished@, self.curr_bundle); }")],
          spec="""
     requires old(self).wf(),
     ensures
@@ -189,7 +187,7 @@ ITEMS = [
 """),
     dict(file=F, path="impl BundleFactory/fn pop_now",
          rewrites=["R11"],
-         ghost=[("before", "(match self.finished", "proof { if self.finished@.len() > 0 { lemma_flatten_pop_front(self.finished@); } }")],
+         ghost=[("start", None, "proof { if self.finished@.len() > 0 { lemma_flatten_pop_front(self.finished@); } }")],
          spec="""
     requires old(self).wf(),
     ensures
